@@ -96,7 +96,7 @@ def rec_variant(e, name):
 
 HEAD = f"""/- GENERATED by harness/translate/tlengine.py (pydyn.py on pyobj.py) from the current source of
    {SRC} (TlSchemas.base_types, TlSchema.little_id, TlSchemas.serialize_field / serialize / deserialize) and
-   {BLOCK_SRC} (BlockIdExt.__init__ / to_bytes / from_bytes / __eq__ / __hash__); do not edit.
+   {BLOCK_SRC} (BlockIdExt.__init__ / to_bytes / from_bytes / __eq__ / __hash__ / to_dict / from_dict, BlockId.__init__ / to_dict / from_dict); do not edit.
    `none` = the Python code raises.  `T` = the schema table; a schema object = a `Ctor` of it; a type string = its classification
    `Py.Tl.TyS`; a dynamically typed value = `Val`; `rec_<m>` = the method `self.<m>` at the depth budget the caller provides. -/
 import TonVerif.PyInt
@@ -308,69 +308,111 @@ BLOCK_INIT = ['workchain', 'shard', 'seqno', 'root_hash', 'file_hash']
 HASH_TY = 'Int × Int × Int × Bytes × Bytes → Int'
 
 
-def hook_block(tr, e):
-    f = e.func
-    if isinstance(f, ast.Name) and f.id == 'cls' and 'cls' not in tr.env and not e.args:
-        kws = {k.arg: k.value for k in e.keywords}
-        if sorted(kws) != sorted(BLOCK_INIT):
-            raise Untranslatable('cls(...) is not called with exactly the declared keyword arguments')
-        actual = []
-        for n in BLOCK_INIT:
-            v, t = tr.expr(kws[n])
-            if t == NAT and BLOCK_ATTRS[n] == INT:
-                v, t = f'(({v} : Nat) : Int)', INT
-            if t != BLOCK_ATTRS[n]:
-                raise Untranslatable(f'cls(...): {n} has type {t}')
-            actual.append(pybytes.par(v))
-        return tr.hoist(f'init {" ".join(actual)}', 'obj'), OBJ('BlockIdExt')
-    if isinstance(f, ast.Name) and f.id == 'hash' and 'hash' not in tr.env and len(e.args) == 1 and not e.keywords and isinstance(e.args[0], ast.Tuple):
-        parts = [tr.expr(x) for x in e.args[0].elts]
-        if [t for _, t in parts] != [INT, INT, INT, BYTES, BYTES]:
-            raise Untranslatable('hash() of something else than the declared 5-tuple')
-        tr.uses_H = True
-        return '(H (' + ', '.join(v for v, _ in parts) + '))', INT
-    return None
+BLOCK_KEYS = {'workchain': 'Py.Tl.kWorkchain', 'shard': 'Py.Tl.kShard', 'seqno': 'Py.Tl.kSeqno', 'root_hash': 'Py.Tl.kRootHash', 'file_hash': 'Py.Tl.kFileHash'}
+# storing a dynamically typed value in an attribute declared int / bytes (declared domain of the attribute; anything else = raises)
+ATTR_COERCE = {(DYN, INT): 'Py.Tl.asInt? {}', (DYN, BYTES): 'Py.Tl.asBytes? {}'}
+# the classes of block.py: attributes, Lean structure, its fields, the parameter list of __init__
+BLOCK_CLASSES = {
+    'BlockIdExt': dict(attrs=BLOCK_ATTRS, fields=BLOCK_FIELDS, result=BLOCK_RESULT, init=BLOCK_INIT, struct='Model.Tl.BlockIdExt', prefix='block_', ns=''),
+    'BlockId': dict(attrs={k: BLOCK_ATTRS[k] for k in BLOCK_INIT[:3]}, fields={k: BLOCK_FIELDS[k] for k in BLOCK_INIT[:3]}, result=BLOCK_RESULT[:3],
+                    init=BLOCK_INIT[:3], struct='Model.Tl.BlockId', prefix='blockid_', ns='Id.'),
+}
 
 
-def translate_block():
+def make_hook_block(cname):
+    cfg = BLOCK_CLASSES[cname]
+
+    def hook_block(tr, e):
+        f = e.func
+        if isinstance(f, ast.Name) and f.id == 'cls' and 'cls' not in tr.env and not e.args:
+            kws = {k.arg: k.value for k in e.keywords}
+            if sorted(kws) != sorted(cfg['init']):
+                raise Untranslatable('cls(...) is not called with exactly the declared keyword arguments')
+            parts = [tr.expr(kws[n]) for n in cfg['init']]
+            if any(t in (DYN, OPT(DYN)) for _, t in parts):
+                # arguments read from a dict: the dynamically typed reading of __init__; an entry other than `shard` is declared present
+                actual = []
+                for n, (v, t) in zip(cfg['init'], parts):
+                    if n == 'shard':
+                        v, t = (v, t) if t == OPT(DYN) else (f'(some {v})', OPT(DYN)) if t == DYN else (None, None)
+                    elif t == OPT(DYN):
+                        v, t = tr.hoist(v, n), DYN
+                    if t not in (DYN, OPT(DYN)):
+                        raise Untranslatable(f'cls(...): {n} has type {t} beside dynamically typed arguments')
+                    actual.append(pybytes.par(v))
+                return tr.hoist(f'init_dyn {" ".join(actual)}', 'obj'), OBJ(cname)
+            actual = []
+            for n, (v, t) in zip(cfg['init'], parts):
+                if t == NAT and cfg['attrs'][n] == INT:
+                    v, t = f'(({v} : Nat) : Int)', INT
+                if t != cfg['attrs'][n]:
+                    raise Untranslatable(f'cls(...): {n} has type {t}')
+                actual.append(pybytes.par(v))
+            return tr.hoist(f'init {" ".join(actual)}', 'obj'), OBJ(cname)
+        if isinstance(f, ast.Name) and f.id == 'hash' and 'hash' not in tr.env and len(e.args) == 1 and not e.keywords and isinstance(e.args[0], ast.Tuple):
+            parts = [tr.expr(x) for x in e.args[0].elts]
+            if [t for _, t in parts] != [INT, INT, INT, BYTES, BYTES]:
+                raise Untranslatable('hash() of something else than the declared 5-tuple')
+            tr.uses_H = True
+            return '(H (' + ', '.join(v for v, _ in parts) + '))', INT
+        return None
+    return hook_block
+
+
+def translate_block_class(tree, cname, methods):
+    """-> [(block name, text)]"""
     import copy
-    tree = _tree(BLOCK_SRC)
-    cls = _class(tree, 'BlockIdExt', BLOCK_SRC)
+    cfg = BLOCK_CLASSES[cname]
+    cls = _class(tree, cname, BLOCK_SRC)
     if cls.bases or cls.keywords or cls.decorator_list:
-        raise Untranslatable('BlockIdExt has base classes / decorators')
+        raise Untranslatable(f'{cname} has base classes / decorators')
     for n in cls.body:
         if isinstance(n, ast.FunctionDef) and n.name in ('__getattr__', '__getattribute__', '__setattr__', '__new__', '__init_subclass__', '__ne__'):
-            raise Untranslatable(f'BlockIdExt defines {n.name}')
+            raise Untranslatable(f'{cname} defines {n.name}')
         if isinstance(n, (ast.Assign, ast.AnnAssign)):
-            raise Untranslatable('BlockIdExt has class-level attributes')
-    prog = DProgram({'BlockIdExt': dict(kind='object', node=cls, lean='Model.Tl.BlockIdExt', attrs=BLOCK_ATTRS, fields=BLOCK_FIELDS, derived={}, base=None)},
-                    src=BLOCK_SRC)
-    iface = dict(context=[('H', HASH_TY)], calls=[hook_block])
+            raise Untranslatable(f'{cname} has class-level attributes')
+    prog = DProgram({cname: dict(kind='object', node=cls, lean=cfg['struct'], attrs=cfg['attrs'], fields=cfg['fields'], derived={}, base=None)}, src=BLOCK_SRC)
+    iface = dict(context=[('H', HASH_TY)], calls=[make_hook_block(cname)], name_literals=BLOCK_KEYS, attr_coerce=ATTR_COERCE, none_narrowing=True)
     defs = []
     init = _method(cls, '__init__')
-    if [a.arg for a in init.args.args[1:]] != BLOCK_INIT or init.args.defaults:
-        raise Untranslatable('BlockIdExt.__init__ parameters')
-    tr = DTr(prog, 'BlockIdExt', 'BlockIdExt', init, [BLOCK_ATTRS[n] for n in BLOCK_INIT], 'init', iface, ctor=BLOCK_RESULT, ctor_struct='Model.Tl.BlockIdExt')
-    defs.append(('block_init', tr.translate()['text']))
-    for name, lean, types, ret in (('to_bytes', 'to_bytes', [], BYTES), ('from_bytes', 'from_bytes', [BYTES], OBJ('BlockIdExt')),
-                                   ('__eq__', 'eq', [OBJ('BlockIdExt')], BOOL), ('__hash__', 'hash', [], INT)):
+    if [a.arg for a in init.args.args[1:]] != cfg['init'] or init.args.defaults:
+        raise Untranslatable(f'{cname}.__init__ parameters')
+    tr = DTr(prog, cname, cname, init, [cfg['attrs'][n] for n in cfg['init']], 'init', dict(iface, none_narrowing=False), ctor=cfg['result'], ctor_struct=cfg['struct'])
+    defs.append((cfg['prefix'] + 'init', tr.translate()['text']))
+    if any(m[0] == 'from_dict' for m in methods):
+        # the same __init__ read with arguments taken from a dict: `shard` may be None / missing, the other entries are dynamically typed values
+        tr = DTr(prog, cname, cname, init, [OPT(DYN) if n == 'shard' else DYN for n in cfg['init']], 'init_dyn', iface, ctor=cfg['result'], ctor_struct=cfg['struct'])
+        defs.append((cfg['prefix'] + 'init_dyn', tr.translate()['text']))
+    for name, lean, types, ret in methods:
         fn = _method(cls, name)
-        if name == 'from_bytes':
+        if name in ('from_bytes', 'from_dict'):
             if [ast.unparse(d) for d in fn.decorator_list] != ['classmethod'] or fn.args.args[0].arg != 'cls':
-                raise Untranslatable('from_bytes is not a classmethod(cls, data)')
+                raise Untranslatable(f'{name} is not a classmethod(cls, ..)')
             fn = copy.deepcopy(fn)
             fn.decorator_list = []
             fn.args.args[0].arg = 'self'
             if any(isinstance(n, ast.Name) and n.id == 'self' for n in ast.walk(ast.Module(body=fn.body, type_ignores=[]))):
-                raise Untranslatable('from_bytes uses the name self')
+                raise Untranslatable(f'{name} uses the name self')
         elif fn.decorator_list:
             raise Untranslatable(f'{name} is decorated')
-        tr = DTr(prog, 'BlockIdExt', 'BlockIdExt', fn, types, lean, iface)
+        tr = DTr(prog, cname, cname, fn, types, lean, iface)
         info = tr.translate()
         if info['ret'] != ret:
-            raise Untranslatable(f'BlockIdExt.{name} returns a {info["ret"]}')
-        defs.append((f'block_{lean}', info['text']))
+            raise Untranslatable(f'{cname}.{name} returns a {info["ret"]}')
+        defs.append((cfg['prefix'] + lean, info['text']))
     return defs
+
+
+def translate_block():
+    tree = _tree(BLOCK_SRC)
+    return translate_block_class(tree, 'BlockIdExt', (('to_bytes', 'to_bytes', [], BYTES), ('from_bytes', 'from_bytes', [BYTES], OBJ('BlockIdExt')),
+                                                      ('__eq__', 'eq', [OBJ('BlockIdExt')], BOOL), ('__hash__', 'hash', [], INT),
+                                                      ('to_dict', 'to_dict', [], DYN), ('from_dict', 'from_dict', [DYN], OBJ('BlockIdExt'))))
+
+
+def translate_blockid():
+    tree = _tree(BLOCK_SRC)
+    return translate_block_class(tree, 'BlockId', (('to_dict', 'to_dict', [], DYN), ('from_dict', 'from_dict', [DYN], OBJ('BlockId'))))
 
 
 def committed_text():
@@ -388,6 +430,7 @@ def generate(old=None):
     try:
         defs = translate_all()
         bdefs = translate_block()
+        idefs = translate_blockid()
     except (Untranslatable, SyntaxError, OSError, RecursionError) as e:
         keep = committed_text() or old
         if keep is None:
@@ -401,8 +444,11 @@ def generate(old=None):
     out += [f'/-! ### {BLOCK_SRC}: BlockIdExt (an object = `Model.Tl.BlockIdExt`; `H` = Python\'s hash of the 5-tuple) -/', 'namespace Block', 'open TonVerif.Model.Tl', '']
     for name, text in bdefs:
         out += [f'-- BEGIN {name}', text.rstrip('\n'), f'-- END {name}', '']
-    out += ['end Block', '', f'end {NS}']
-    return '\n'.join(out) + '\n', {n: 'regenerated' for n, _ in defs + bdefs}, {}
+    out += ['end Block', '', '/-! ### BlockId (an object = `Model.Tl.BlockId`) -/', 'namespace BlockIdS', 'open TonVerif.Model.Tl', '']
+    for name, text in idefs:
+        out += [f'-- BEGIN {name}', text.rstrip('\n'), f'-- END {name}', '']
+    out += ['end BlockIdS', '', f'end {NS}']
+    return '\n'.join(out) + '\n', {n: 'regenerated' for n, _ in defs + bdefs + idefs}, {}
 
 
 def regenerate():
@@ -513,6 +559,11 @@ def run1 (w : String) : String :=
         | some (v, n) => s!"ok {showVal v} {n}"
         | none => "err")
       | none => "bad")
+  | ["desx", d, auto] => (match hexArg d with
+      | some bs => (match deserializeF boolFlagTable (auto == "1") 0 gfuel bs true none with
+        | some (v, n) => s!"ok {showVal v} {n}"
+        | none => "err")
+      | none => "bad")
   | ["ddes", d, auto] => (match hexArg d with
       | some bs =>
         let a := (deserializeF table (auto == "1") 0 gfuel bs true none).map fun (v, n) => s!"{showVal v} {n}"
@@ -522,6 +573,18 @@ def run1 (w : String) : String :=
   | ["btb", w, sh, q, r, f] => (match w.toInt?, sh.toInt?, q.toInt?, hexArg r, hexArg f with
       | some w, some sh, some q, some r, some f => showB (Block.to_bytes f r q sh w)
       | _, _, _, _, _ => "bad")
+  | ["btd", w, sh, q, r, f] => (match w.toInt?, sh.toInt?, q.toInt?, hexArg r, hexArg f with
+      | some w, some sh, some q, some r, some f => (match Block.to_dict f r q sh w with | some v => "ok" ++ showVal v | none => "err")
+      | _, _, _, _, _ => "bad")
+  | ["itd", w, sh, q] => (match w.toInt?, sh.toInt?, q.toInt? with
+      | some w, some sh, some q => (match BlockIdS.to_dict q sh w with | some v => "ok" ++ showVal v | none => "err")
+      | _, _, _ => "bad")
+  | ["bfd", v] => (match valArg v with
+      | some val => (match Block.from_dict val with | some b => "ok" ++ showBlk b | none => "err")
+      | none => "bad")
+  | ["ifd", v] => (match valArg v with
+      | some val => (match BlockIdS.from_dict val with | some b => s!"ok{b.workchain} {b.shard} {b.seqno}" | none => "err")
+      | none => "bad")
   | ["bfb", d] => (match hexArg d with
       | some d => (match Block.from_bytes d with | some b => "ok" ++ showBlk b | none => "err")
       | none => "bad")
@@ -567,6 +630,19 @@ ODD_VALUES = [0, 1, -1, 255, 2 ** 31 - 1, 2 ** 31, -2 ** 31, -2 ** 31 - 1, 2 ** 
               'root_hash': 'aa' * 32, 'file_hash': 'bb' * 32}, {'@type': 'no.such.ctor'}, {'@type': 'liteServer.getTime', 'seqno': 5}]
 
 
+def validation_values(W, rng=None):
+    """the corpus of TL values of the translator validation: 2-3 type-directed values of every covered constructor (strings around 253 / 254)"""
+    import random
+    from ..gen import tlvals as V
+    rng = rng or random.Random(20240914)
+    vals = []
+    cov = [c for c in W.ctors if W.covered(c)]
+    for k, c in enumerate(cov):
+        for r in range(2 if k % 3 else 3):
+            vals.append((c, V.gen_obj(W, rng, c, 0, {'depth': 2, 'big': False, 'lens': [0, 1, 3, 4, 253, 254, 255, 300]})))
+    return vals
+
+
 def validation_cases(W=None):
     """-> (W, [(word, python thunk)])"""
     import copy
@@ -575,11 +651,8 @@ def validation_cases(W=None):
     W = W or V.World()
     rng = random.Random(20240914)
     out = []
-    cov = [c for c in W.ctors if W.covered(c)]
-    for k, c in enumerate(cov):
-        for r in range(2 if k % 3 else 3):
-            v = V.gen_obj(W, rng, c, 0, {'depth': 2, 'big': False, 'lens': [0, 1, 3, 4, 253, 254, 255, 300]})
-            out.append((f'ser:{c["idx"]}:{V.tok_obj(W, c, v)}', lambda c=c, v=v: W.lib.serialize(W.lib.list[c['idx']], copy.deepcopy(v))))
+    for c, v in validation_values(W, rng):
+        out.append((f'ser:{c["idx"]}:{V.tok_obj(W, c, v)}', lambda c=c, v=v: W.lib.serialize(W.lib.list[c['idx']], copy.deepcopy(v))))
     # the parser: the serialisations of these values, whole / followed by other bytes / cut / with one byte changed, both modes
     k = 0
     for w, thunk in list(out):
@@ -600,6 +673,8 @@ def validation_cases(W=None):
             out.append((f'des:{d.hex() or "-"}:{auto}', lambda d=d, auto=auto: lib_deserialize(W, d, auto), 'des'))
     for d in (b'', b'\x01', b'\x00' * 4, b'\xff' * 8):
         out.append((f'des:{d.hex() or "-"}:1', lambda d=d: lib_deserialize(W, d, 1), 'des'))
+    for d in bool_flag_inputs():
+        out.append((f'desx:{d.hex()}:1', lambda d=d: bool_flag_expected(d).encode(), 'text'))
     seen = set()
     for c in W.ctors:
         for j, a in enumerate(c['args']):
@@ -632,6 +707,27 @@ def validation_cases(W=None):
             b = BlockIdExt.from_bytes(d)
             return f'{b.workchain} {b.shard} {b.seqno} {hx(b.root_hash)} {hx(b.file_hash)}'.encode()
         out.append((f'bfb:{hx(d)}', fb, 'text'))
+    from pytoniq_core.tl.block import BlockId
+    for k, (wc, sh, sq, rh, fh) in enumerate(ids):
+        if not rh or not fh:
+            continue
+        dtok = lambda d: 'o-(' + ','.join(f'{j}=' + (f'i{d[n]}' if j < 3 else ('h' + d[n] if isinstance(d[n], str) else 'b' + d[n].hex()))
+                                          for j, n in enumerate(['workchain', 'shard', 'seqno', 'root_hash', 'file_hash']) if n in d) + ')'
+        out.append((f'btd:{wc}:{sh}:{sq}:{hx(rh)}:{hx(fh)}', lambda a=(wc, sh, sq, rh, fh): dtok(BlockIdExt(*a).to_dict()).encode(), 'text'))
+        out.append((f'itd:{wc}:{sh}:{sq}', lambda a=(wc, sh, sq): dtok(BlockId(*a).to_dict()).encode(), 'text'))
+        d = {'workchain': wc, 'shard': sh, 'seqno': sq, 'root_hash': rh.hex() if k % 3 else rh, 'file_hash': fh.hex()}
+        if k % 4 == 0:
+            del d['shard']                          # `if shard is None`: the masterchain shard
+
+        def fd(d=d):
+            b = BlockIdExt.from_dict(dict(d))
+            return f'{b.workchain} {b.shard} {b.seqno} {hx(b.root_hash)} {hx(b.file_hash)}'.encode()
+
+        def fi(d=d):
+            b = BlockId.from_dict(dict(d))
+            return f'{b.workchain} {b.shard} {b.seqno}'.encode()
+        out.append((f'bfd:{dtok(d)}', fd, 'text'))
+        out.append((f'ifd:{dtok(d)}', fi, 'text'))
     for k in range(40):
         a = ids[k]
         b = list(a) if k % 2 else list(ids[(k + 1) % 40])
@@ -641,6 +737,34 @@ def validation_cases(W=None):
         out.append((f'beq:{a[0]}:{a[1]}:{a[2]}:{hx(a[3])}:{hx(a[4])}:{b[0]}:{b[1]}:{b[2]}:{hx(b[3])}:{hx(b[4])}',
                     lambda a=a, b=tuple(b): (b'T' if (BlockIdExt(*a) == BlockIdExt(*b)) else b'F'), 'text'))
     return W, out
+
+
+BOOL_FLAG_DECL = 't.x mode:Bool a:mode.0?int b:mode.1?int = T.X;'
+
+
+def bool_flag_inputs():
+    """byte strings for the schema BOOL_FLAG_DECL (Drv/Tl.lean `boolFlagTable`): the flags word is a Bool - True (bit 0 set), False, invalid
+    (left unset: `bin(None)` raises)"""
+    hdr = bytes.fromhex('6acadf25')
+    i4 = lambda n: n.to_bytes(4, 'little', signed=True)
+    return [hdr + bytes.fromhex('b5757299') + i4(7) + i4(9), hdr + bytes.fromhex('b5757299') + i4(-1), hdr + bytes.fromhex('379779bc') + i4(7),
+            hdr + bytes.fromhex('379779bc'), hdr + bytes(4) + i4(7), hdr + bytes.fromhex('b5757299'), hdr]
+
+
+def bool_flag_expected(d):
+    """what the LIBRARY makes of d under the one-constructor table of BOOL_FLAG_DECL, in the driver's output syntax (` ok <value> <consumed>`
+    without the leading blank / `err`; raises if the library raises)"""
+    import pytoniq_core.tl.generator as g
+    s = g.TlRegistrator().register(BOOL_FLAG_DECL)
+    assert s.id.hex() == '25dfca6a' and list(s.args) == ['mode', 'a', 'b']
+    val, n = g.TlSchemas([s]).deserialize(d)
+    ids = {'mode': 0, 'a': 3, 'b': 4}
+    assert val.get('@type') == 't.x'
+    parts = []
+    for k, v in val.items():
+        if k != '@type':
+            parts.append(f'{ids[k]}=' + (('T' if v else 'F') if isinstance(v, bool) else f'i{v}'))
+    return f' o1({",".join(parts)}) {n}'
 
 
 def lib_deserialize(W, d, auto):
@@ -693,7 +817,7 @@ def validate():
     return None, len(cases)
 
 
-def diff_values(ctx, W, pairs):
+def diff_values(ctx, W, pairs, damaged=False):
     """For harness search mode: pairs = [(constructor, value)] -> those on which the regenerated serialiser and the hand model differ, or
     on whose serialisation (whole / followed by other bytes, both modes) the regenerated PARSER and the hand-model parser differ
     (evaluated by Lean; needs only Generated/TlEngine.lean and the driver modules, not the proofs).  Never raises."""
@@ -708,7 +832,11 @@ def diff_values(ctx, W, pairs):
                 ser = W.lib.serialize(W.lib.list[c['idx']], copy.deepcopy(v))
             except Exception:
                 continue
-            for d, auto in ((ser, 0), (ser, 1), (ser + b'\x01\x02\x03\x04\x05', 0)):
+            variants = [(ser, 0), (ser, 1), (ser + b'\x01\x02\x03\x04\x05', 0)]
+            if damaged and len(ser) > 8:
+                # not well-typed any more: a difference here still points at the value whose round trips the oracle then runs
+                variants += [(ser[:4 + (k * 7) % (len(ser) - 4)], 1), (ser[:-1] + bytes([ser[-1] ^ 0x80]), 1)]
+            for d, auto in variants:
                 words.append(f'ddes:{d.hex() or "-"}:{auto}')
                 owner.append(k)
         got = lean_eval(words)
